@@ -95,7 +95,11 @@ func (x *Exec) caseReady(self *Thread, c *Case) bool {
 		if c.lenf() < c.capv {
 			return true
 		}
-		return x.partner(self, c.id, false) != nil
+		// A hand-off to a parked receiver exists only on an unbuffered channel: on a buffered
+		// one a receiver that is still parked while the buffer holds data has logically been
+		// woken already and will take the head of the buffer - handing it a later value
+		// directly would break the channel's FIFO order.
+		return c.capv == 0 && x.partner(self, c.id, false) != nil
 	}
 	if c.lenf() > 0 || x.closed[c.id] {
 		return true
